@@ -318,6 +318,9 @@ def parse_output(text):
         kind = "collides"
     elif "Parse error" in t:
         kind = "parse"
+    m = re.findall(r"checkoutSCM: dir:([^,\n]+), url:[^\n]* failed", t)
+    if m and kind is None:
+        kind = "scmFailed:" + m[-1]
     return ev, kind
 
 
@@ -409,6 +412,29 @@ class Obs:
             if cache is not None:
                 cache[path] = (info[0], out[loc])
         return out
+
+
+def plain_dirs(w, locs):
+    """directories and files in the workspace that are not inside an SCM directory (and no parent of one)"""
+    wsroot = os.path.join(w.proj, WS)
+    scm = [os.path.relpath(info[1], wsroot) for loc, info in locs.items() if loc[0] == "ws"]
+    out = []
+    if not os.path.isdir(wsroot) or "." in [norm(x) for x in scm]:
+        return out
+    for dp, dn, fn in os.walk(wsroot):
+        rel = norm(os.path.relpath(dp, wsroot))
+        keep = []
+        for d in dn:
+            p = norm(os.path.join(rel, d))
+            if any(p == norm(x) for x in scm):
+                continue
+            keep.append(d)
+            if not any(is_prefix(p, x) for x in scm):
+                out.append(comps(p))
+        dn[:] = keep
+        for f in fn:
+            out.append(comps(norm(os.path.join(rel, f))))
+    return sorted(out)
 
 
 def loc_json(loc):
@@ -553,6 +579,7 @@ def _history(w, r, rec, nevents, want_model, parse_gitlog, snap_of, deadline=Non
         pre_state = state
         mw = w.model_world() if want_model else None
         pre = obs.contents(state, cache)
+        pre_plain = plain_dirs(w, obs.locations(state))
         pre_tree = None
         if "--dry-run" in args:
             pre_tree = tree_of(os.path.join(w.proj, "dev"), set()) if os.path.isdir(os.path.join(w.proj, "dev")) else {}
@@ -615,6 +642,7 @@ def _history(w, r, rec, nevents, want_model, parse_gitlog, snap_of, deadline=Non
                 "new": [model_spec(w, s, ubc) for s in specs] if (kind == "dev" and used) else None,
                 "used": used, "valid": parse_valid(specs),
                 "pre": [[loc_json(l), c] for l, c in sorted(pre.items(), key=lambda x: json.dumps(loc_json(x[0])))],
+                "plain": pre_plain,
                 "post": [[loc_json(l), c] for l, c in sorted(post.items(), key=lambda x: json.dumps(loc_json(x[0])))],
                 "rc": rc, "errkind": errkind, "evs": evs, "attic_index": dict(attic_index),
                 "state": {"dirs": {d: e.get("digest") for d, e in ((state.get("dirs") or {}).get(WS) or {}).items()},
@@ -661,6 +689,19 @@ def _history(w, r, rec, nevents, want_model, parse_gitlog, snap_of, deadline=Non
             rec["log"].append(desc)
             cache.clear()
             changed = True
+        elif k < 0.40 and os.path.isdir(wsroot) and not any(norm(s_["dir"]) == "." for s_ in specs):
+            # the user puts something of his own into the workspace (no SCM directory)
+            free = [d for d in ("a", "b", "sub", "nest", "own") if not os.path.exists(os.path.join(wsroot, d))]
+            if free:
+                d = r.choice(free)
+                os.makedirs(os.path.join(wsroot, d))
+                tok = w.token("own")
+                with open(os.path.join(wsroot, d, "own%d.txt" % w.counter), "w") as fh:
+                    fh.write(tok + "\n")
+                ledger.append({"kind": "file", "token": tok, "name": "own%d.txt" % w.counter})
+                rec["log"].append("user-mkdir " + d)
+                touched.add(d)
+                changed = True
         elif k < 0.62 and gd:
             d, path = r.choice(gd)
             desc = user_op(w, r, path, ledger)
@@ -976,7 +1017,8 @@ def compare_history(ctx, rec, replies):
         ctx.case(key, nontrivial=ev["nontrivial"],
                  sample={"history": rec["hseed"], "log": ev["log"][-4:], "model_ops": m.get("ops")})
         ctx.count("bob_cmd", ev["kind"] + (" " + " ".join(a for a in ev["args"] if a.startswith("--")) if ev["args"] else ""))
-        case = {"kind": "history", "hseed": rec["hseed"], "nevents": rec["nevents"], "upto": len(ev["log"]), "log": ev["log"]}
+        case = {"kind": "history", "hseed": rec["hseed"], "nevents": rec["nevents"], "upto": len(ev["log"]), "log": ev["log"],
+                "new": ev["new"], "model_ops": m.get("ops"), "model_err": m.get("err"), "bob_output": ev["text"][-400:]}
         # ---- decisions
         mops = []
         for o in m.get("ops", []):
@@ -995,6 +1037,13 @@ def compare_history(ctx, rec, replies):
         iops = [[e[0], norm(os.path.relpath(e[1], WS))] for e in ev["evs"]]
         merr = (m.get("err") or {}).get("kind")
         ierr = ev["errkind"] or (None if ev["rc"] == 0 else "scmFailed")
+        if merr == "scmFailed" and ierr and ierr.startswith("scmFailed:"):
+            # which SCM of the step failed
+            if norm(ierr.split(":", 1)[1]) != norm((m.get("err") or {}).get("dir", "?")):
+                ctx.disagree("failing SCM of the checkout step", case, ierr, m.get("err"))
+                continue
+        if ierr and ierr.startswith("scmFailed"):
+            ierr = "scmFailed"
         if ev["kind"] == "dev":
             ctx.count("outcome", str(merr))
             if mops != iops:
@@ -1064,7 +1113,7 @@ def compare_history(ctx, rec, replies):
 def history_requests(rec):
     reqs = [{"op": "begin"}]
     for ev in rec["events"]:
-        reqs.append({"op": "sync", "contents": [{"loc": l, "content": c} for l, c in ev["pre"]]})
+        reqs.append({"op": "sync", "contents": [{"loc": l, "content": c} for l, c in ev["pre"]], "plain": ev.get("plain", [])})
         if ev["kind"] == "dev":
             if ev["new"] is None or not ev["valid"] or ev["errkind"] == "parse":
                 continue
@@ -1105,6 +1154,8 @@ def histories(ctx, want_model):
             break
         recs.extend(ctx.parallel(run_history, jobs[i:i + batch], workers=16))
     _CACHE[key] = recs
+    if os.environ.get("C12_SAVE"):
+        json.dump(recs, open(os.environ["C12_SAVE"] + "-%d.json" % ctx.seed, "w"), default=repr)
     return recs
 
 
@@ -1146,7 +1197,8 @@ def correspond(ctx):
         for c in rec["contract"]:
             ctx.disagree("GitContract clause '%s' holds for the git commands Bob issued" % c["clause"],
                          {"kind": "history", "hseed": rec["hseed"], "nevents": rec["nevents"]}, c, "contract")
-        ctx.count("git_commands_checked", "histories", 0)
+        ctx.count("git_commands_checked", "in histories", rec.get("ncmds", 0))
+        ctx.trace_validated(rec.get("ncmds", 0))
 
 
 def replay(ctx, case):
@@ -1554,13 +1606,16 @@ MANIFEST = {
             "step only emits scmSwitch / moveToAttic (fresh attic number) / regAttic / setDirState / invoke and emptyDir solely "
             "for a pruning import SCM, and the set of SCM directories is the replay of that log; one run and, by induction, every "
             "history of builds (arbitrary recipe edits and upstream moves), user actions, bob clean -s and bob clean --attic keeps "
-            "every work item except under three exactly stated loss conditions (one of them is the reported defect of bob clean "
-            "--attic); under the GitContract hypotheses GitScm.switch/invoke never lose dirty/untracked paths or user commits held by "
-            "a local ref (whether they succeed or fail half way), the guarded reset --keep is safe, an `expendable` status implies "
-            "that no user work exists, bob clean -s removes a workspace only if all its SCMs are expendable and never with "
-            "--dry-run.  The executable git model satisfies GitContract (proved) and is compared with git 2.39; the builder model "
-            "is compared with real `bob dev/clean` runs on generated universes; every git command Bob issues is checked against "
-            "the contract clauses.",
+            "every work item located in a registered SCM directory (three exactly stated loss conditions: below a pruning import "
+            "SCM, in an unregistered directory below a cleaned attic directory, in an untracked directory of a cleaned "
+            "workspace); under the GitContract hypotheses GitScm.switch/invoke never lose dirty/untracked paths or user commits "
+            "held by a local ref (whether they succeed or fail half way), the guarded reset --keep is safe, an `expendable` status "
+            "implies that no user work exists; bob clean -s / --attic remove an SCM directory only if the SCM registered for it "
+            "(and everything registered below it) is expendable and never with --dry-run; a successful run from an untouched "
+            "consistent workspace leaves exactly the fresh checkouts of the new SCM list (and so does every history of successful "
+            "builds).  The executable git model satisfies GitContract (proved) and is compared with git 2.39; the builder model is "
+            "compared with real `bob dev/clean` runs on generated universes; every state changing git command Bob issues is checked "
+            "against the contract clauses; flag/property sets and the branch-moving git commands are re-extracted from the source.",
     "note": "trusted: Lean kernel, harness/props/c12.py, harness/gen/c12world.py, git 2.39 up to the validated contract clauses",
     "technique": "Lean 4 proof over hand-written model + differential correspondence on real child processes + user-work ledger oracle",
 }
